@@ -202,6 +202,20 @@ class SFA(_PanelToPanelTransformer):
         if self.binning_method not in binning_methods:
             raise TypeError("binning_method must be one of: ", binning_methods)
 
+        # quantities derived from the parameters are computed afresh: a previous fit
+        # with anova=True overwrites them, and the constructor's values ignore a later
+        # set_params
+        offset = 2 if self.norm else 0
+        word_length = min(self.word_length, self.window_size - offset)
+        self.dft_length = (
+            self.window_size - offset if self.anova is True else word_length
+        )
+        self.dft_length = self.dft_length + self.dft_length % 2
+        self.support = np.array(list(range(word_length)))
+        self.inverse_sqrt_win_size = (
+            1.0 / math.sqrt(self.window_size) if self.lower_bounding else 1.0
+        )
+
         X = check_X(X, enforce_univariate=True, coerce_to_numpy=True)
         X = X.squeeze(1)
 
